@@ -23,7 +23,9 @@ LEVEL = "exploration"
 RULE = ("straight-line forms (nesting <= 3) whose evaluated leaves are the unique variables v0 v1 ...: calls, "
         "method calls (.m o ...), (. o (m ...) [i] attr), list/tuple/set literals, dict displays, get, cut, "
         "arithmetic and comparison operators, chainc, f-strings with conversions and nested format specs, "
-        "decorator lists and class bases; every argument/element slot holds a plain operand, #* X, #** X, :k X, "
+        "decorator lists and class bases, and at top level assert (test leaf falsy in half the forms, so the message "
+        "is evaluated) and try with 2-3 except clauses (the body raises; clause k matches); every leaf is bare or "
+        "inside the statement wrapper (do (setv tN vN) tN); every argument/element slot holds a plain operand, #* X, #** X, :k X, "
         "or a long form (unpack-iterable X [Y]) / (unpack-mapping X [Y]) / operand-less. Non-trivial = at least one "
         "unpacking form and at least three leaves; distinct by rendered form.")
 FLOOR = {"quick": 1500, "thorough": 8000}
@@ -42,6 +44,9 @@ ASSUMPTIONS = [
     "stand-in; identity and not-in comparisons have exactly two operands; when execution raises, only the static "
     "check (ast.Name loads) decides, because a raise can legitimately pre-empt later reads",
     "a form rejected with any exception is not this property's subject (internal errors are C10's)",
+    "assert/try: the generator's run-time model says which leaves control flow reaches (message only if the test "
+    "stand-in is falsy; type forms of except clauses up to the matching one, its handler, finally); only those are "
+    "demanded at run time, all leaves are demanded in the AST",
 ]
 MANIFEST = {
     "text": "Generated straight-line forms in which every evaluated leaf is a uniquely named variable, with plain, "
@@ -69,9 +74,10 @@ class StandIn:
     truthy results), formattable, hashable. Never short-circuits anything."""
     _n = 0
 
-    def __init__(self):
+    def __init__(self, truthy=True):
         StandIn._n += 1
         self._id = StandIn._n
+        self._truthy = truthy
 
     def __call__(self, *a, **k):
         return StandIn()
@@ -97,7 +103,7 @@ class StandIn:
         return [f"sk{self._id}a", f"sk{self._id}b"]
 
     def __bool__(self):
-        return True
+        return self._truthy
 
     def __hash__(self):
         return self._id
@@ -145,19 +151,39 @@ for _n in ("neg", "pos", "invert", "abs"):
     setattr(StandIn, f"__{_n}__", _arith)
 
 
+class Values:
+    """What a leaf name evaluates to: a fresh stand-in, or the special value the case's
+    run-time model asks for (a falsy stand-in; exception class number k)."""
+
+    def __init__(self, log, special=None):
+        self.log = log
+        self.special = special or {}
+        self.classes = {}
+
+    def read(self, k):
+        self.log.append(k)
+        kind = self.special.get(k)
+        if kind == "falsy":
+            return StandIn(truthy=False)
+        if kind and kind.startswith("exc:"):
+            if kind not in self.classes:
+                self.classes[kind] = type("HvExc" + kind[4:], (Exception,), {})
+            return self.classes[kind]
+        return StandIn()
+
+
 class RecLocals:
     """Non-dict locals mapping: records reads of leaf names."""
 
-    def __init__(self, log):
-        self.log = log
+    def __init__(self, values):
+        self.values = values
         self.store = {}
 
     def __getitem__(self, k):
         if k in self.store:
             return self.store[k]
         if LEAF.match(k):
-            self.log.append(k)
-            return StandIn()
+            return self.values.read(k)
         raise KeyError(k)
 
     def __setitem__(self, k, v):
@@ -170,26 +196,26 @@ class RecLocals:
 class RecGlobals(dict):
     """dict subclass: LOAD_GLOBAL from nested code objects honours __missing__."""
 
-    def __init__(self, log):
+    def __init__(self, values):
         super().__init__()
-        self.log = log
+        self.values = values
 
     def __missing__(self, k):
         if LEAF.match(k):
-            self.log.append(k)
-            return StandIn()
+            return self.values.read(k)
         raise KeyError(k)
 
 
-def run_recorded(code):
+def run_recorded(code, special=None):
     """-> (names read, exception or None)"""
     log = []
-    g = RecGlobals(log)
+    values = Values(log, special)
+    g = RecGlobals(values)
     g["__name__"] = "hvc11_run"
     out = io.StringIO()
     try:
         with contextlib.redirect_stdout(out), contextlib.redirect_stderr(out):
-            exec(code, g, RecLocals(log))
+            exec(code, g, RecLocals(values))
     except Exception as e:
         return log, e
     return log, None
@@ -197,8 +223,11 @@ def run_recorded(code):
 
 # ------------------------------------------------------------------- the oracle
 
-def observe(ir):
-    """-> dict(outcome=..., missing_static=set, missing_run=set|None, reads=int, detail=str)"""
+def observe(ir, meta=None):
+    """-> dict(outcome=..., missing_static=set, missing_run=set|None, reads=int, detail=str).
+    `meta` is the case's run-time model: special leaf values, the leaves control flow really
+    reaches (None = all) and the exception type that ends a complete run (None = none)."""
+    meta = meta or {}
     from hy.compiler import hy_compile
     from hy.errors import HyLanguageError
     leaves = set(G.leaves_of(ir))
@@ -226,11 +255,12 @@ def observe(ir):
                 return dict(res, outcome="accepted-python-syntaxerror", detail=str(e.msg)[:120])
             except Exception as e:
                 return dict(res, outcome="accepted-python-rejects", detail=f"{type(e).__name__}: {e}"[:160])
-        log, exc = run_recorded(code)
+        log, exc = run_recorded(code, meta.get("special"))
         res["reads"] = len(log)
-        if exc is not None:
+        if exc is not None and type(exc).__name__ != meta.get("expect_exc"):
             return dict(res, outcome="accepted-run-raised", detail=f"{type(exc).__name__}: {exc}"[:160])
-        res["missing_run"] = leaves - set(log)
+        reached = leaves if meta.get("runtime") is None else leaves & set(meta["runtime"])
+        res["missing_run"] = reached - set(log)
         return dict(res, outcome="accepted-run-completed", detail="")
     finally:
         sys.modules.pop(name, None)
@@ -319,7 +349,7 @@ def _known_keys():
     return keys
 
 
-def attribute(ir):
+def attribute(ir, meta=None):
     """Key of the mechanism that explains the dropped leaves, or None. All present
     features normalised away must leave no violation; a mechanism is needed if the form
     with every other feature normalised still violates. Unrecorded keys first."""
@@ -335,7 +365,7 @@ def attribute(ir):
 
     def fails(j):
         try:
-            return violation(observe(j)) is not None
+            return violation(observe(j, meta)) is not None
         except G.Unbuildable:
             return False
 
@@ -360,7 +390,8 @@ def cases(seed, tier, shard, nshards):
         rng = rng_for(seed, ID, shard, i)
         i += 1
         ir, g = G.gen_leafform(rng, rng.choice([1, 2, 3, nest]))
-        yield {"ir": ir, "kinds": sorted(g.kinds), "unpacks": g.unpacks, "text": G.show(ir)}
+        yield {"ir": ir, "kinds": sorted(g.kinds), "unpacks": g.unpacks, "text": G.show(ir),
+               "meta": {"special": g.special, "runtime": g.runtime, "expect_exc": g.expect_exc}}
 
 
 def setup_worker(tier, seed):
@@ -387,7 +418,7 @@ def run_case(case):
     if len(leaves) != len(set(leaves)):
         return {"ok": None, "classes": ["skipped-duplicate-leaf"]}
     try:
-        obs = observe(ir)
+        obs = observe(ir, case.get("meta"))
     except G.Unbuildable:
         return {"ok": None, "classes": ["unbuildable"]}
     unpacks = sum(1 for n, _ in G.walk(ir) if G.head_of(n) in ("unpack-iterable", "unpack-mapping"))
@@ -401,7 +432,7 @@ def run_case(case):
            "sample": {"form": case.get("text", G.show(ir))[:300], "outcome": obs["outcome"], "leaves": len(leaves)}}
     why = violation(obs)
     if why:
-        key = attribute(ir)
+        key = attribute(ir, case.get("meta"))
         res.update(ok=False, finding=key,
                    why=f"{G.show(ir)[:400]}  is accepted ({obs['outcome']}) but {why}"
                        f"{'  [mechanism ' + key + ']' if key else ''}")
